@@ -73,9 +73,32 @@ func genC20() string {
 	var calls []string
 	for _, c := range callsIn(inst.Body, "parsePluginFromDir", "parsePluginName", "isExecutableFile", "validatePluginName",
 		"NewCLIPlugin", "newPlugin.GetMetadata", "m.Get", "existingPlugin.GetMetadata", "semver.ComparePluginVersion",
-		"m.Uninstall", "os.Remove", "os.RemoveAll", "file.CopyToDir", "file.CopyDirToDir", "os.Rename", "os.Mkdir") {
+		"isPathWithin", "m.Uninstall", "os.Remove", "os.RemoveAll", "file.CopyToDir", "file.CopyDirToDir", "os.Rename", "os.Mkdir") {
 		calls = append(calls, callName(c))
 	}
+	// the guard "the source is not inside the plugin's own installation directory": its arguments and
+	// that it is the condition of an if statement whose body returns
+	var within string
+	ast.Inspect(inst.Body, func(n ast.Node) bool {
+		is, ok := n.(*ast.IfStmt)
+		if !ok {
+			return true
+		}
+		if c, ok := is.Cond.(*ast.CallExpr); ok && callName(c) == "isPathWithin" {
+			for _, st := range is.Body.List {
+				if _, ok := st.(*ast.ReturnStmt); ok {
+					within = exprText(c)
+				}
+			}
+		}
+		return true
+	})
+	if within == "" {
+		fail("%s: Install has no `if isPathWithin(...) { return ... }` guard", mf)
+	}
+	fmt.Fprintf(&b, "/-- the guard of `CLIManager.Install` against a source inside the plugin's own directory -/\ndef installWithinGuard : String := %s\n\n", leanStr(within))
+	ipw := mustFunc(man, mf, "", "isPathWithin")
+	fmt.Fprintf(&b, "/-- calls of `isPathWithin` -/\ndef isPathWithinCalls : List String := %s\n\n", leanStrList(callTexts(ipw.Body, "filepath.", "strings.")))
 	fmt.Fprintf(&b, "/-- checking / removing / copying calls of `CLIManager.Install`, in source order -/\ndef installCalls : List String := %s\n\n", leanStrList(calls))
 	un := mustFunc(man, mf, "CLIManager", "Uninstall")
 	var ucalls []string
